@@ -154,7 +154,7 @@ def g_setters(kinds):
     return run
 
 
-BUDGET_S = {'quick': 400, 'thorough': 2400}
+BUDGET_S = {'quick': 400, 'thorough': 1200}
 
 
 def groups(tier):
